@@ -258,5 +258,73 @@ Proof.
   apply Hm. by apply (elem_of_list_fmap_1 snd) in Hin.
 Qed.
 
-(* the ordering clause holds for the list the model returns whenever the model's own Kahn order passes the checker;
-   the model order is not compared with the implementation's (sets of Circuit objects iterate by id) *)
+(* ---- the order the model returns: Kahn rounds put every supergate after all supergates it depends on ---- *)
+Section kahn.
+  Context (L : circuit).
+  Let D (p q : string * Circuit) : Prop := depends L p.2 q.2 = true.
+  Definition kinv (done left : list (string * Circuit)) : Prop :=
+    (∀ p q, p ∈ done → q ∈ left → ¬ D p q) ∧
+    (∀ i j p q, done !! i = Some p → done !! j = Some q → D p q → j < i ∨ p.1 = q.1).
+
+  Lemma kahn_ordered fuel : ∀ left done r, kahn fuel L left done = Some r → kinv done left →
+    ∀ i j p q, r !! i = Some p → r !! j = Some q → D p q → j < i ∨ p.1 = q.1.
+  Proof.
+    induction fuel as [|k IH]; intros left dn r H [Ha Hb]; simpl in H; [done|].
+    destruct left as [|q0 left0] eqn:El.
+    { injection H as <-. exact Hb. }
+    rewrite <- El in *. clear El q0 left0.
+    set (ready := filter (λ p : string * Circuit, Is_true (forallb (λ q : string * Circuit, bool_decide (q.1 = p.1) || negb (depends L p.2 q.2)) left)) left) in *.
+    destruct ready as [|rd rds] eqn:Er; [done|]. rewrite <- Er in *. clear Er rd rds.
+    apply (IH _ _ _ H). clear H IH.
+    assert (∀ p q, p ∈ ready → q ∈ left → q.1 = p.1 ∨ ¬ D p q) as HR.
+    { intros p q [Hp _]%elem_of_list_filter Hq. apply Is_true_true in Hp.
+      rewrite forallb_forall in Hp. specialize (Hp q). rewrite <- elem_of_list_In in Hp. specialize (Hp Hq).
+      apply orb_true_iff in Hp as [Hp|Hp]; [left; by apply bool_decide_eq_true in Hp|right].
+      unfold D. apply negb_true_iff in Hp. congruence. }
+    split.
+    - intros p q Hp [Hq1 Hq2]%elem_of_list_filter. apply elem_of_app in Hp as [Hp|Hp]; [by apply Ha|].
+      destruct (HR p q Hp Hq2) as [He|Hn]; [|done]. exfalso. apply Hq1. rewrite He. by apply elem_of_list_fmap_1.
+    - intros i j p q Hi Hj HD.
+      apply lookup_app_Some in Hi as [Hi|[Hil Hi]]; apply lookup_app_Some in Hj as [Hj|[Hjl Hj]].
+      + by eapply Hb.
+      + exfalso. apply (Ha p q); [by eapply elem_of_list_lookup_2| |done].
+        apply elem_of_list_lookup_2 in Hj. by apply elem_of_list_filter in Hj as [_ ?].
+      + left. apply lookup_lt_Some in Hj. lia.
+      + apply elem_of_list_lookup_2 in Hi, Hj. destruct (HR p q Hi) as [He|Hn]; [by apply elem_of_list_filter in Hj as [_ ?]|by right|done].
+  Qed.
+End kahn.
+
+Lemma keyed_nodup l m : keyed l = Some m → NoDup m.*1.
+Proof. unfold keyed. intros H. apply bind_Some in H as (l' & _ & H). case_bool_decide; [|done]. by injection H as <-. Qed.
+Lemma nodup_fst_eq (m : list (string * Circuit)) p q : NoDup m.*1 → p ∈ m → q ∈ m → p.1 = q.1 → p = q.
+Proof.
+  intros Hnd [a Ha]%elem_of_list_lookup [b Hb]%elem_of_list_lookup He.
+  assert (a = b) as ->; [|congruence].
+  eapply (NoDup_lookup _ _ _ _ Hnd); rewrite list_lookup_fmap; [by rewrite Ha|rewrite Hb; simpl; by rewrite He].
+Qed.
+Theorem supergates_topo L sgs : supergates L = Ok sgs →
+  ∀ i j sgi sgj x, sgs !! i = Some sgi → sgs !! j = Some sgj → x ∈ inputs (c_g sgi) → x ∈ gates (c_g sgj) → j < i.
+Proof.
+  unfold supergates. destruct (minimal_supergates L) as [m| | |] eqn:Em; unfold rbind; try done.
+  destruct (kahn (S (length m)) L m []) as [l|] eqn:Ek; [|done]. intros [= <-] i j sgi sgj x Hi Hj Hxi Hxj.
+  rewrite list_lookup_fmap in Hi, Hj. apply fmap_Some in Hi as (p & Hi & ->). apply fmap_Some in Hj as (q & Hj & ->).
+  assert (∀ p, p ∈ l → p ∈ m) as Hsub.
+  { intros p0 Hp0. destruct (kahn_sub _ _ _ _ _ Ek _ Hp0) as [?|Hn]; [done|by apply elem_of_nil in Hn]. }
+  pose proof (Hsub _ (elem_of_list_lookup_2 _ _ _ Hi)) as Hpm. pose proof (Hsub _ (elem_of_list_lookup_2 _ _ _ Hj)) as Hqm.
+  (* a gate of a supergate is not a primary input of L *)
+  assert (x ∉ inputs L) as HxL.
+  { destruct (minimal_supergates_from_cones _ _ Em _ Hqm) as (o & _ & Hc).
+    apply cone_supergates_restrict in Hc as (_ & _ & S & HS).
+    apply elem_of_difference in Hxj as [Hd Hni]. apply elem_of_dom in Hd as [ix Hix].
+    destruct (HS x ix Hix) as (_ & k & Hk & _ & Hty). intros (k' & Hk' & Hin)%elem_of_inputs.
+    apply Hni. apply elem_of_inputs. exists ix. split; [done|]. destruct Hty as [Hty|[Hty _]]; congruence. }
+  assert (depends L p.2 q.2 = true) as HD.
+  { unfold depends. apply negb_true_iff, bool_decide_eq_false. unfold gates_of. set_solver. }
+  destruct (kahn_ordered L _ _ _ _ Ek) with (i := i) (j := j) (p := p) (q := q) as [?|He]; try done.
+  { split; [intros ? ? Hn; by apply elem_of_nil in Hn|intros ? ? ? ? Hn; by rewrite lookup_nil in Hn]. }
+  exfalso. assert (p = q) as -> by (eapply nodup_fst_eq; eauto; unfold minimal_supergates in Em;
+    destruct (has_bb L); [done|]; destruct (dedupe _ []) as [all|]; [|done]; destruct (keyed _) as [m'|] eqn:Ekd; [|done];
+    injection Em as <-; by eapply keyed_nodup).
+  unfold gates in Hxj. set_solver.
+Qed.
+
